@@ -115,18 +115,24 @@ class Env:
         s._w = w
         return w
 
-    def account(s, w):
+    def account(s, w, count=True):
         q0, t0, p0, s0 = s._stat0
         s.res['queries'] += w.vm.solver.queries - q0
         s.res['solver_s'] += w.vm.solver.time - t0
-        s.res['paths'] += w.vm.stats['paths'] - p0
-        s.res['steps'] += w.vm.stats['steps'] - s0
+        if count:
+            s.res['paths'] += w.vm.stats['paths'] - p0
+            s.res['steps'] += w.vm.stats['steps'] - s0
         s.res['funcs'] = sorted(set(s.res['funcs']) | {f for f in w.vm.stats['funcs']})
         s.res['externs'] = sorted(w.vm.stats['ext_calls'])
         s._stat0 = (w.vm.solver.queries, w.vm.solver.time, w.vm.stats['paths'], w.vm.stats['steps'])
 
     def cover(s, name, hit):
-        s.res['covers'][name] = bool(s.res['covers'].get(name)) or bool(hit)
+        """hit: bool or a thunk evaluated only while the witness is still missing"""
+        if s.res['covers'].get(name):
+            return
+        if callable(hit):
+            hit = hit()
+        s.res['covers'][name] = bool(hit)
 
     def violation(s, **v):
         s.res['violations'].append(v)
